@@ -688,10 +688,11 @@ func (r *FileRestorer) applyDecorations(node ast.Node, name string, decorations 
 
 		// for newline decorations and also line-comments, add a newline
 		if isLineComment || isNewline {
-			if isNewline && r.cursor != r.cursorAtNewLine {
+			if r.cursor != r.cursorAtNewLine {
 				// As in applySpace: advance the cursor one more byte, so the line break comes
-				// after the end of whatever was restored last (and any separator char) instead
-				// of starting the new line at the very position where it ends.
+				// after the end of whatever was restored last - a node (and any separator char)
+				// or the line comment itself - instead of starting the new line at the very
+				// position where it ends.
 				r.cursor++
 			}
 			lineOffset := int(r.cursor) - r.base // remember lines are relative to the file base
